@@ -450,6 +450,18 @@ where
         self.nodes.remove(coord);
     }
 
+    /// Verification hook: places a node at an arbitrary coordinate (lattice shapes are enumerated by the harness).
+    #[cfg(reinterpretcat_vrp_verif)]
+    pub fn verif_insert(&mut self, context: &C, coord: Coordinate, weights: &[Float]) {
+        self.insert(context, coord, weights);
+    }
+
+    /// Verification hook: removes the node at the coordinate.
+    #[cfg(reinterpretcat_vrp_verif)]
+    pub fn verif_remove(&mut self, coord: &Coordinate) {
+        self.remove(coord);
+    }
+
     /// Remaps internal lattice after potential changes in coordinate schema.
     pub(super) fn remap(&mut self, node_modifier: &(dyn Fn(Coordinate, Node<I, S>) -> Node<I, S>)) {
         let nodes = self.nodes.drain().map(|(coord, node)| node_modifier(coord, node)).collect::<Vec<_>>();
